@@ -685,11 +685,20 @@ func (g *Gen) modifyKind(s *gsession, forced int) {
 
 	var removed *bearer
 
+	bare := false
+	if kind == 9 { // (forced) a handover whose Update Forwarding Parameters carry the new Outer Header Creation alone
+		kind, bare = 0, true
+	}
+
 	switch kind {
 	case 0: // handover: the downlink FAR forwards to a (new) gNB, optionally asking for an end marker
 		b := s.bearers[g.R.Intn(len(s.bearers))]
+		if bare {
+			b = s.bearers[0]
+		}
+
 		nf := pfcpx.FAR{ID: b.dlFAR, Action: 2, HasFP: true, Dst: "access", OHC: true, PeerIP: 0xC0A80000 + uint32(g.R.Intn(4)), TEID: g.teid()}
-		if g.R.Intn(4) == 0 {
+		if g.R.Intn(4) == 0 || bare {
 			nf.Dst = "none" // the Destination Interface is sent only "if changed": the new Outer Header Creation alone
 		}
 
@@ -697,7 +706,7 @@ func (g *Gen) modifyKind(s *gsession, forced int) {
 			nf.SNDEM = true
 		}
 
-		if g.R.Intn(5) == 0 { // ... or the rule starts dropping / buffering instead
+		if g.R.Intn(5) == 0 && !bare { // ... or the rule starts dropping / buffering instead
 			nf = pfcpx.FAR{ID: b.dlFAR, Action: []uint8{1, 0x0c, 4}[g.R.Intn(3)], HasFP: true, Dst: "access", SNDEM: nf.SNDEM}
 		}
 
